@@ -111,6 +111,8 @@ type Spec struct {
 	// Action labels a call ("" = none).  Called for every call instruction, before inlining; resolve evaluates a
 	// value to a constant under the current configuration (or Top).
 	Action func(call ssa.CallInstruction, resolve func(ssa.Value) string) string
+	// MultiAction, when set, labels a call with any number of actions (also consulted for go and defer statements).
+	MultiAction func(call ssa.CallInstruction) []string
 	// Inline reports whether a statically resolved callee is analysed (summarised) rather than treated as opaque.
 	Inline func(callee *ssa.Function) bool
 	// OpaqueClobbers: an opaque call that is handed the receiver may change tracked fields to Top.
@@ -504,6 +506,14 @@ func (s *Spec) step(in ssa.Instruction, c *Config) []*Config {
 		s.invalidate(c, name)
 		return []*Config{c}
 	case ssa.CallInstruction:
+		if s.MultiAction != nil {
+			if ls := s.MultiAction(x); len(ls) > 0 {
+				c = c.clone()
+				for _, a := range ls {
+					c.Acts[a] = true
+				}
+			}
+		}
 		if _, isGo := in.(*ssa.Go); isGo {
 			return []*Config{c}
 		}
